@@ -31,6 +31,8 @@ MIN_REACH = {
     "missing_slots_checked": {"quick": 1200, "thorough": 40000},
     "unsortable_axes_judged": {"quick": 5, "thorough": 300},
     "long_case_sets_crossed_with_a_sub_grid": {"quick": 4, "thorough": 16},
+    "positional_cases_named_by_the_function_signature": {"quick": 12, "thorough": 250},
+    "case_sets_given_as_mappings_that_are_not_dicts": {"quick": 25, "thorough": 500},
     "rejections_checked": {"quick": 20, "thorough": 150},
     "case_sets_given_as_one_shot_iterators": {"quick": 100, "thorough": 2000},
     "rejections_checked_with_positional_cases": {"quick": 5, "thorough": 40},
@@ -133,6 +135,12 @@ def run_case(ctx, case):
             fn_args = names[0]
     elif case.get("single_dict"):
         spelled_cases = spelled_cases[0]
+    elif case["keyorder_seed"] % 5 == 2:
+        # each case is a mapping that is not a dict (a read-only view of the caller's dict, an OrderedDict)
+        import collections
+        import types
+        spelled_cases = [types.MappingProxyType(c) if k_ % 2 == 0 else collections.OrderedDict(c) for k_, c in enumerate(spelled_cases)]
+        ctx.count("case_sets_given_as_mappings_that_are_not_dicts")
 
     how = case.get("cases_as", "list")
     if isinstance(spelled_cases, list) and how != "list":
@@ -150,6 +158,16 @@ def run_case(ctx, case):
             ctx.count("case_sets_given_as_one_shot_iterators")
     loglist = []
     fn = probe.Probe(kind, loglist=loglist)
+    allnames_ = list(names) + [a for a, _ in sub] + list(constants)
+    if (isinstance(fn_args, tuple) and len(fn_args) >= 2 and case["keyorder_seed"] % 3 != 0 and not sub
+            and all(isinstance(a, str) and a.isidentifier() for a in allnames_) and len(set(allnames_)) == len(allnames_)):
+        # the argument names are NOT given: they are read off the function, a plain def whose last case argument (and
+        # everything after it) is keyword-only - def f(p, *, q, a=.., kc=..) - or a functools.wraps-decorated one
+        kwo_ = len(allnames_) - len(names) + 1
+        fn = probe.make_fn(allnames_, kind=kind, loglist=loglist, kwonly=kwo_ if case["keyorder_seed"] % 2 else 0,
+                           wrapped=case["keyorder_seed"] % 4 >= 2)
+        fn_args = None
+        ctx.count("positional_cases_named_by_the_function_signature")
     opts = {"split": case["split"], "shuffle": case["shuffle"], "verbosity": 0}
     if constants:
         opts["constants"] = constants
